@@ -19,6 +19,8 @@ if PY2:
 else:
     HEX_TO_BYTE = {(a + b).encode(): bytes.fromhex(a + b) for a in HEX for b in HEX}
 
+HEX_BYTES = HEX.encode()
+
 ASCII_RE = re.compile("([\x00-\x7f]+)")
 
 
@@ -38,6 +40,10 @@ def _unquote_impl(string, only_printable=False, unsafe=None):
     res = bytearray(bits[0])
     append = res.extend
 
+    # True when the output ends with a dangling "%" or "%X" that an unquoted
+    # hexadecimal digit would complete into an escape that was not there
+    dangling = False
+
     for item in bits[1:]:
         b = HEX_TO_BYTE.get(item[:2])
 
@@ -48,12 +54,17 @@ def _unquote_impl(string, only_printable=False, unsafe=None):
             elif unsafe is not None and b in unsafe:
                 append(b"%")
                 append(item)
+            elif dangling and b in HEX_BYTES:
+                append(b"%")
+                append(item)
             else:
                 append(b)
                 append(item[2:])
+            dangling = False
         else:
             append(b"%")
             append(item)
+            dangling = len(item) < 2 and item in HEX_BYTES
 
     return res
 
